@@ -17,6 +17,9 @@ pub enum Mode {
     Fail,
     /// k-th write call accepts one byte fewer than offered; the following call fails
     Short,
+    /// k-th write call accepts only the first byte (a legal short write); the sink never fails,
+    /// so the bytes it ends up with must be exactly the fault-free output
+    ShortOk,
 }
 
 /// M6: recording / failing sink
@@ -65,6 +68,15 @@ impl Write for Sink {
                     Ok(buf.len())
                 }
             }
+            Mode::ShortOk => {
+                if self.calls == self.k && buf.len() > 1 {
+                    self.accepted.push(buf[0]);
+                    Ok(1)
+                } else {
+                    self.accepted.extend_from_slice(buf);
+                    Ok(buf.len())
+                }
+            }
             Mode::Short => {
                 if self.short_done {
                     self.failed_at = Some(self.calls);
@@ -100,9 +112,24 @@ fn replay_json(sc: &Scenario, mode: Mode, k: usize) -> serde_json::Value {
 }
 
 /// run one faulted render and apply the oracle; returns a violation description
-fn faulted(t: &Template, data: &liquid::Object, mode: Mode, k: usize, clean: &[u8]) -> Result<(), (String, String)> {
+fn faulted(t: &Template, data: &liquid::Object, mode: Mode, k: usize, clean: &[u8], clean_ok: bool) -> Result<(), (String, String)> {
     let mut sink = Sink::new(mode, k);
     let r = guard(|| t.render_to(&mut sink, data));
+    if mode == Mode::ShortOk {
+        // a sink that never fails: same result and same bytes as the fault-free run
+        return match r {
+            Err(p) => Err((p.key(), format!("render_to panicked at {} with a short-writing sink: {}", p.site(), p.msg))),
+            Ok(res) => {
+                if res.is_ok() != clean_ok {
+                    Err(("short-write-changes-result".into(), format!("a short (1 byte) write at call {k} changed the result of render_to")))
+                } else if sink.accepted != clean {
+                    Err(("short-write-loses-bytes".into(), format!("after a legal short write at call {k} the sink holds {:?}, the fault-free output is {:?}", String::from_utf8_lossy(&sink.accepted), String::from_utf8_lossy(clean))))
+                } else {
+                    Ok(())
+                }
+            }
+        };
+    }
     match r {
         Err(p) => return Err((p.key(), format!("render_to panicked at {} with a failing sink: {}", p.site(), p.msg))),
         Ok(Ok(())) => {
@@ -135,7 +162,7 @@ fn faulted(t: &Template, data: &liquid::Object, mode: Mode, k: usize, clean: &[u
 
 pub fn run(ctx: &mut Ctx) {
     ctx.start_watchdog(120);
-    let n = ctx.scale(400u64, 20_000u64);
+    let n = ctx.scale(3_000u64, 60_000u64);
     let rng = ctx.rng("c10");
     let mut constructs_seen = std::collections::BTreeSet::new();
     for i in 0..n {
@@ -211,16 +238,16 @@ pub fn run(ctx: &mut Ctx) {
             (1..=w).step_by(w / 400 + 1).collect()
         };
         for &k in &ks {
-            for mode in [Mode::Fail, Mode::Short] {
-                let res = faulted(&t, &data, mode, k, &clean.accepted);
-                ctx.record(hash_combine(h0, (k * 2 + mode as usize) as u64), true);
+            for mode in [Mode::Fail, Mode::Short, Mode::ShortOk] {
+                let res = faulted(&t, &data, mode, k, &clean.accepted, clean_ok);
+                ctx.record(hash_combine(h0, (k * 4 + mode as usize) as u64), true);
                 ctx.count("fault-points-injected");
                 if let Err((key, what)) = res {
                     ctx.violation(&key, &what, || replay_json(&sc, mode, k));
                 }
             }
         }
-        ctx.sample(|| json!({"template": sc.main, "write_calls": w, "fault_points": ks.len() * 2, "fault_free_ok": clean_ok}));
+        ctx.sample(|| json!({"template": sc.main, "write_calls": w, "fault_points": ks.len() * 3, "fault_free_ok": clean_ok}));
     }
     for c in constructs_seen {
         ctx.count(&format!("construct:{}", c.trim()));
@@ -247,13 +274,15 @@ pub fn replay(j: &serde_json::Value) -> bool {
     let mode = match j["mode"].as_str() {
         Some("Fail") => Mode::Fail,
         Some("Short") => Mode::Short,
+        Some("ShortOk") => Mode::ShortOk,
         _ => Mode::None,
     };
     let k = j["k"].as_u64().unwrap_or(0) as usize;
     if mode == Mode::None {
         return false;
     }
-    match faulted(&t, &data, mode, k, &clean.accepted) {
+    let clean_ok = guard(|| t.render_to(&mut Sink::new(Mode::None, 0), &data)).map(|r| r.is_ok()).unwrap_or(false);
+    match faulted(&t, &data, mode, k, &clean.accepted, clean_ok) {
         Ok(()) => {
             println!("oracle satisfied");
             false
